@@ -34,7 +34,11 @@ func q12Execute(e *executor.DefaultExecutor, ctx context.Context, job *executor.
 		q12LateStart = true
 	}
 	q12Started[name] = true
-	time.Sleep(time.Millisecond) // the command is running: the thread is descheduled, whatever else can happen happens
+	if q12Atomic {
+		rt.Yield() // a preemption point only (the nested shapes have too many pollers for a descheduling command)
+	} else {
+		time.Sleep(time.Millisecond) // the command is running: the thread is descheduled, whatever else can happen happens
+	}
 	if rt.CtxCancelled(ctx) {
 		rt.Cover("C12.sched.a-running-command-was-interrupted")
 		q12Interrupted[name] = true
@@ -50,7 +54,7 @@ func q12NewExecutor(stdin interface{}, stdout, stderr interface{}) (*executor.De
 }
 func q12Render(t string, m map[string]interface{}) (string, error) { return t, nil }
 
-var q12CondFails bool
+var q12CondFails, q12Atomic bool
 
 func q12Condition(c string) (bool, error) {
 	if q12CondFails && len(q12Started) > 0 {
@@ -59,7 +63,8 @@ func q12Condition(c string) (bool, error) {
 	return true, nil
 }
 
-// shape 0: a, b after a, c independent; 1: three independent stages; 2: chain a -> b -> c
+// shape 0: a, b after a, c independent; 1: three independent stages; 2: chain a -> b -> c;
+// 3: outer pipeline {n = nested pipeline {a, b}, c}: the condition (mode 1) sits on the nested stage b
 func VerifC12Sched(shape, mode, preempt int) {
 	rt.ThreadMode(preempt)
 	rt.Redirect("(*github.com/taskctl/taskctl/pkg/executor.DefaultExecutor).Execute", q12Execute)
@@ -69,8 +74,10 @@ func VerifC12Sched(shape, mode, preempt int) {
 	q12CancelReturned, q12LateStart = false, false
 	q12Started, q12Interrupted = map[string]bool{}, map[string]bool{}
 	q12CondFails = mode == 1
-	deps := [][][]string{{nil, {"a"}, nil}, {nil, nil, nil}, {nil, {"a"}, {"b"}}}[shape]
+	q12Atomic = shape == 3
+	deps := [][][]string{{nil, {"a"}, nil}, {nil, nil, nil}, {nil, {"a"}, {"b"}}, {nil, {"a"}, nil}}[shape]
 	g, _ := NewExecutionGraph()
+	inner, _ := NewExecutionGraph()
 	var stages []*Stage
 	for i, n := range []string{"a", "b", "c"} {
 		t := task.FromCommands("cmd-" + n)
@@ -81,8 +88,15 @@ func VerifC12Sched(shape, mode, preempt int) {
 		if mode == 1 && i == 1 {
 			st.Condition = "cond-b"
 		}
-		rt.Assert(g.AddStage(st) == nil, "C12.sched.graph-built")
+		if shape == 3 && i < 2 {
+			rt.Assert(inner.AddStage(st) == nil, "C12.sched.graph-built")
+		} else {
+			rt.Assert(g.AddStage(st) == nil, "C12.sched.graph-built")
+		}
 		stages = append(stages, st)
+	}
+	if shape == 3 {
+		rt.Assert(g.AddStage(&Stage{Name: "n", Pipeline: inner}) == nil, "C12.sched.graph-built")
 	}
 	r, err := runner.NewTaskRunner()
 	rt.Assert(err == nil, "C12.runner-created")
